@@ -429,7 +429,7 @@ func planAll(mixes int, rnd *rand.Rand, h2 bool) []respPlan {
 		plans = append(plans, respPlan{gun: "grpc", posts: "none", letters: repeat(l, shots)})
 		plans = append(plans, respPlan{gun: "grpc/scenario", posts: "none", letters: repeat(l, shots)})
 	}
-	for _, l := range []string{"gbig", "gtoobig", "gslow", "gkill"} {
+	for _, l := range []string{"gbig", "gtoobig", "gslow", "gkill", "gempty", "ggarbage", "gkillmid"} {
 		plans = append(plans, respPlan{gun: "grpc", posts: "none", letters: repeat(l, shots), timeout: l == "gslow"})
 		plans = append(plans, respPlan{gun: "grpc/scenario", posts: "none", letters: repeat(l, shots), timeout: l == "gslow"})
 	}
@@ -472,7 +472,7 @@ func planAll(mixes int, rnd *rand.Rand, h2 bool) []respPlan {
 	}
 	// seeded random mixtures (letters whose effect is confined to their own request)
 	mixHTTP := append(append(append(append(append([]string{}, httpStatus...), httpNet...), httpBody...), httpOdd...), httpList...)
-	mixGrpc := append([]string{"gbig", "gtoobig"}, grpcOddCodes...)
+	mixGrpc := append([]string{"gbig", "gtoobig", "gempty", "ggarbage"}, grpcOddCodes...)
 	mixPosts := append(append([]string{}, allPosts...), idxPostNames...)
 	for c := 0; c <= 16; c++ {
 		mixGrpc = append(mixGrpc, fmt.Sprintf("c%d", c))
@@ -788,7 +788,8 @@ func responsesMain(args []string) {
 	defer w.Close()
 	results := make([]respRun, len(plans))
 	heavy := func(p respPlan) bool {
-		return p.avail != "" || p.timeout || p.letters[0] == "big" || p.letters[0] == "hugeheader" || p.letters[0] == "gkill"
+		return p.avail != "" || p.timeout || p.letters[0] == "big" || p.letters[0] == "hugeheader" || p.letters[0] == "gkill" ||
+			p.letters[0] == "gkillmid" || p.letters[0] == "manyheaders"
 	}
 	order := []int{}
 	for j := range plans {
